@@ -205,8 +205,16 @@ impl DepthSpace {
     fn probe(&self, shape: &Shape, build: Build, d: usize, runs: &mut u64) -> Class {
         *runs += 1;
         let src = (shape.build)(d);
-        let r = cli::run(build, Input::File(&src), None, Duration::from_secs(if self.thorough { 240 } else { 90 }));
-        classify(shape, d, &r)
+        // A run that takes more than a few seconds (rendering tens of thousands of diagnostics,
+        // copying megabytes of nested data) ends the depth grid of its shape like a run that
+        // exhausts memory: a cap, reported as such, never a verdict. A crash is still a crash.
+        let t0 = std::time::Instant::now();
+        let r = cli::run(build, Input::File(&src), None, Duration::from_secs(if self.thorough { 240 } else { 20 }));
+        let c = classify(shape, d, &r);
+        if !matches!(c, Class::Crash(_)) && t0.elapsed() > Duration::from_secs(if self.thorough { 60 } else { 6 }) {
+            return Class::Timeout;
+        }
+        c
     }
 }
 
